@@ -168,7 +168,7 @@ func (c *c07Ctl) await(done <-chan struct{}, timeout time.Duration) (*c07Park, b
 type c07Peer struct {
 	conn     net.Conn
 	mu       sync.Mutex
-	errs     [][2]int64          // error frames (id, code) in arrival order
+	errs     [][2]int64            // error frames (id, code) in arrival order
 	callRes  map[uint32][]*rawCall // call res fragments by id
 	resDone  map[uint32]bool
 	callReqs []uint32 // ids of call req frames received (outbound calls of the channel)
